@@ -111,5 +111,40 @@ pub fn all() -> Vec<PropDef> {
         assumptions: vec!["peer sends whole records and withholds later ones (the quantifier of C08); under this peer a suspension on read cannot be mid-record behind an owed reply"],
         real: REAL_ASYNC.to_vec(), stub: STUB_ASYNC.to_vec(),
     });
+    v.push(PropDef {
+        id: "C09", level: "exploration", driver: "D2 deterministic executor + simulated transport; handler explores the read interfaces",
+        scens: vec![s("readers", d2::c09, 30_000, 3_000_000)],
+        rule: "each run = one connection whose handler issues a chooser-driven sequence of poll_read(len 0..70000) / poll_fill_buf+consume(k) / set_stream / writeable() calls, samples is_writeable() after every poll and probes output_stream()/set_stream() rejections under catch_unwind, while the transport returns 1..n bytes or Pending and management records arrive mid-stream with the write side accepting 1..n bytes or Pending; bytes received per stream compared with M-stream; distinct = distinct (skeleton, digest)",
+        assumptions: vec!["compliant client (streams in role order)"],
+        real: REAL_ASYNC.to_vec(), stub: STUB_ASYNC.to_vec(),
+    });
+    v.push(PropDef {
+        id: "C10", level: "exploration", driver: "D2 deterministic executor + simulated transport; concurrent writer sub-tasks with their own wakers",
+        scens: vec![s("writers", d2::c10, 30_000, 3_000_000)],
+        rule: "each run = 1..3 StreamWriters (stdout, stderr, a clone) on separately polled sub-futures plus a reader sub-future that drives reply flushing, write sizes from {0,1,7,8,9,255,256,..3000,65535,65536,70000}, flush between writes, a transport that cuts every (vectored) write anywhere or returns Pending, poll order of sub-futures chosen per step; the log must decode into complete records equal, in completion order, to the successful writes (type, id, payload, padding) with replies as whole records in between",
+        assumptions: vec!["a writer is polled to completion of its current write before its buffer changes (documented contract)"],
+        real: REAL_ASYNC.to_vec(), stub: STUB_ASYNC.to_vec(),
+    });
+    v.push(PropDef {
+        id: "C11", level: "exploration", driver: "D1 (sync parsers) + D2 (connection task)",
+        scens: vec![s("sync_abort", d1stream::c11_sync, 30_000, 3_000_000), s("async_abort", d2::c11, 30_000, 3_000_000), s("params_abort", d1req::c04_req, 15_000, 1_500_000)],
+        rule: "sync: an own-id AbortRequest (optionally with body/padding, optionally preceded by a foreign-id abort) after a random record of the stream phase: parse reports AbortRequest, again on every later call, the header is retained and the next request parser skips it and parses the following request; async: aborts after a random stream-phase record (and aborted attempts during Params) in 1..3-request connections with handlers that read / buffered-read / do not read / are past end-of-stream and propagate or swallow the error; EndRequest records, handler-visible errors and delivered prefixes compared with M-conn",
+        assumptions: vec!["after an abort the empty Stdout/Stderr records are optional (the request may never have become writeable); the statement requires exactly one EndRequest"],
+        real: REAL_ASYNC.to_vec(), stub: STUB_ASYNC.to_vec(),
+    });
+    v.push(PropDef {
+        id: "C12", level: "fault_enumeration", driver: "D2 deterministic executor + fault-injecting transport",
+        scens: vec![s("faults", d2::c12, 400, 40_000)],
+        rule: "each run = one seeded scripted connection (1..2 requests, chunking, handler that propagates I/O errors) executed fault-free, then re-executed from the same choice list once per fault point: EOF at EVERY input byte offset 0..N, a read error at EVERY read-call index, a one-shot write error and a one-shot zero-length write at EVERY write-call index (stride > 1 only beyond 400 points per kind); evaluations counts outer scripts, faults_fired counts the inner runs; non-trivial = every run (each contains hundreds of fault points)",
+        assumptions: vec!["handlers propagate I/O errors (the statement's condition for the write clauses)"],
+        real: REAL_ASYNC.to_vec(), stub: STUB_ASYNC.to_vec(),
+    });
+    v.push(PropDef {
+        id: "C14", level: "exploration", driver: "D2 deterministic executor (connection side); D3 thread scheduler (wait group)",
+        scens: vec![s("conn_shutdown", d2::c14_conn, 30_000, 3_000_000)],
+        rule: "connection side: one connection task plus the shutdown future as a second task; Runner::shutdown is requested as a scheduler event at a chooser-picked step (before the first read, during a preamble, during the handler, during close, between requests, while idle); checked: started requests complete incl. EndRequest, no handler begins in a poll that starts after the request, idle connections stop without a further transport read, the shutdown future is Ready only after the token is gone and is woken for it",
+        assumptions: vec![],
+        real: REAL_ASYNC.to_vec(), stub: STUB_ASYNC.to_vec(),
+    });
     v
 }
